@@ -40,8 +40,19 @@ using ola::network::TCPAcceptingSocket;
 using ola::network::TCPSocket;
 
 namespace {
-void CleanupChannel(RpcChannel *channel,
+/*
+ * Runs from the event loop once a channel has closed. The session handler is
+ * told about the removal here, rather than from within ChannelClosed(),
+ * because ChannelClosed() can be reached from a failed send in the middle of
+ * a service method (e.g. while a Universe is iterating over its sink clients)
+ * and the handler is free to delete the objects associated with the session.
+ */
+void CleanupChannel(RpcSessionHandlerInterface *session_handler,
+                    RpcChannel *channel,
                     ConnectedDescriptor *descriptor) {
+  if (session_handler) {
+    session_handler->ClientRemoved(channel->Session());
+  }
   delete channel;
   delete descriptor;
 }
@@ -158,10 +169,6 @@ void RpcServer::NewTCPConnection(TCPSocket *socket) {
 
 void RpcServer::ChannelClosed(ConnectedDescriptor *descriptor,
                               RpcSession *session) {
-  if (m_session_handler) {
-    m_session_handler->ClientRemoved(session);
-  }
-
   if (m_options.export_map) {
     (*m_options.export_map->GetIntegerVar(K_CLIENT_VAR))--;
   }
@@ -169,11 +176,13 @@ void RpcServer::ChannelClosed(ConnectedDescriptor *descriptor,
   m_ss->RemoveReadDescriptor(descriptor);
   m_connected_sockets.erase(descriptor);
 
-  // We're in the call stack of both the descriptor and the channel here.
-  // We schedule deletion during the next run of the event loop to break out of
-  // the stack.
+  // We're in the call stack of both the descriptor and the channel here, and
+  // possibly of a service method that was sending to this client. We notify
+  // the session handler and schedule deletion during the next run of the
+  // event loop to break out of the stack.
   m_ss->Execute(
-      NewSingleCallback(CleanupChannel, session->Channel(), descriptor));
+      NewSingleCallback(CleanupChannel, m_session_handler, session->Channel(),
+                        descriptor));
 }
 }  // namespace rpc
 }  // namespace ola
